@@ -380,9 +380,10 @@ class Engine:
         if c is not None:
             if c in state.mem.objs:
                 return Ptr(c, ())
-            for key, (iv, p) in self.math_cache.items():
-                if key[0] == "ptrenc" and iv.as_long() == c:
-                    return p
+            for key, val in self.math_cache.items():
+                # math_cache also holds non-pointer entries (booleans, dicts, strings as keys): look at ptrenc ones only
+                if isinstance(key, tuple) and key and key[0] == "ptrenc" and val[0].as_long() == c:
+                    return val[1]
         o = Opaque("ptrval", tag=(v != 0))
         # remember the integer encoding: storing this pointer value again (struct copy a[j] = a[j+1]) must write
         # the same value back, not a fresh unknown (math_cache keeps `o` alive, so id(o) stays unique)
